@@ -35,7 +35,10 @@ EXPLANATION = (
     "returns code 0 only after solver.check(tree) was true on the tree obtained from the input, and `check` exits with exactly that code; "
     "(E6) input-text handling in get_input_string cannot raise: no unguarded indexing of the input text, and every function applied to "
     "input-derived data lies inside safe(...) (a `.map(f)` stage of a returns pipeline does not catch exceptions of f). "
-    "NOT decided: that solve output is accepted by check (needs C01/C03); UnknownResultError from solver.check is inventoried only."
+    "(E7) every .read() of a user-supplied file handle lies in a try that catches UnicodeDecodeError (or a base class) and ends in sys.exit: a non-UTF-8 file cannot end in a traceback. "
+    "(E8) parse_grammar rejects (inside its try, hence with exit 65) a grammar in which a used nonterminal or <start> has no rules. "
+    "(E10) the input file's text loses at most one trailing newline and a JSON tree is accepted only under GrammarGraph.tree_is_valid; (E9) in do_check the solver construction and solver.check(tree) lie in a try whose generic handler answers (1, message, Nothing): evaluation errors and "
+    "UnknownResultError cannot escape as a traceback. NOT decided: that solve output is accepted by check (needs C01/C03)."
 )
 
 ALLOWED_CODES = {0, 1, 2, 65}
@@ -362,7 +365,147 @@ def rule_e6(ctx):
                   "stage function cannot raise")
 
 
+DECODE_CATCHERS = {"UnicodeDecodeError", "UnicodeError", "ValueError", "Exception", "BaseException"}
+
+
+def rule_e10(ctx):
+    """get_input_string: the text of the input file is the input except for (at most) ONE trailing newline, and a JSON tree is accepted only if the grammar
+    graph says it is a valid derivation tree."""
+    fn = ctx.repo.func(CLI, "get_input_string", "C19.E10")
+    c = f"{CLI}:get_input_string"
+    binds = [a for a in walk_local(fn) if isinstance(a, ast.Assign) and src(a.targets[0]) == "inp"]
+    norm = [a for a in binds if "inp" in {x.id for x in ast.walk(a.value) if isinstance(x, ast.Name)}]
+    for a in norm:
+        v = a.value
+        one_newline = isinstance(v, ast.IfExp) and src(v.body) == "inp[:-1]" and src(v.test) == "inp.endswith('\\n')" and src(v.orelse) == "inp"
+        strips = [x for x in ast.walk(v) if isinstance(x, ast.Call) and isinstance(x.func, ast.Attribute) and x.func.attr in ("strip", "rstrip", "lstrip", "replace", "splitlines", "split")]
+        if one_newline:
+            ctx.ok("E10-input-text", c, "file text minus exactly one trailing newline", site(a), "inp[:-1] if inp.endswith('\\n') else inp")
+        elif strips:
+            ctx.viol("E10-input-text", c, "file text minus exactly one trailing newline", site(a),
+                     f"the input text is normalised with `{src(strips[0])[:50]}`, which can remove more than the single newline appended when the file was written: for a grammar whose words end "
+                     "in a newline (or contain the stripped characters at the end) the word printed by `isla solve` is no longer what `isla check` checks")
+        else:
+            raise Unrecognised("C19.E10", c, f"normalisation `{src(a)[:70]}` of the input text not understood")
+    pj = next((d for d in ast.walk(fn) if isinstance(d, ast.FunctionDef) and d.name == "parse_json_tree"), None)
+    if pj is None:
+        raise Unrecognised("C19.E10", c, "parse_json_tree not found")
+    rets = [r for r in walk_local(pj) if isinstance(r, ast.Return)]
+    if len(rets) != 1 or not (isinstance(rets[0].value, ast.Call) and call_name(rets[0].value) == "eassert" and len(rets[0].value.args) == 2):
+        raise Unrecognised("C19.E10", c, "parse_json_tree does not return eassert(tree, <validity>)")
+    cond = rets[0].value.args[1]
+    valid_calls = [x for x in ast.walk(cond) if isinstance(x, ast.Call) and isinstance(x.func, ast.Attribute) and x.func.attr == "tree_is_valid" and x.args and src(x.args[0]) == src(rets[0].value.args[0])]
+    ctx.check(bool(valid_calls), "E10-json-tree-valid", c, "a JSON tree is accepted only if GrammarGraph.tree_is_valid(tree)", site(cond),
+              f"the JSON tree is accepted under `{' '.join(src(cond).split())[:80]}` without the grammar graph's validity check: a tree with known symbols but an expansion the grammar does not have "
+              "makes `isla check` exit 0 for an input outside the language", "graph().tree_is_valid(tree)")
+    if valid_calls:
+        recv = valid_calls[0].func.value
+        g = next((d for d in ast.walk(fn) if isinstance(d, ast.FunctionDef) and d.name == "graph"), None)
+        ok = isinstance(recv, ast.Call) and call_name(recv) == "graph" and g is not None and any(isinstance(r, ast.Return) and src(r.value) == "gg.GrammarGraph.from_grammar(grammar)" for r in ast.walk(g))
+        ctx.check(ok, "E10-json-tree-valid", c, "validity judged against the given grammar", site(recv), "graph() must be GrammarGraph.from_grammar(grammar)", "graph of the reference grammar")
+    mk = [a for a in walk_local(pj) if isinstance(a, ast.Assign) and src(a.targets[0]) == "tree"]
+    ok = len(mk) == 1 and src(mk[0].value) == "DerivationTree.from_parse_tree(json.loads(inp))"
+    ctx.check(ok, "E10-json-tree-valid", c, "tree read from the input text", site(pj), f"tree is `{src(mk[0].value) if mk else None}`", "from_parse_tree(json.loads(inp))")
+
+
+def rule_e7(ctx):
+    """Reading a user-supplied file decodes it (UTF-8): every `.read()` of a file handle in cli.py lies in a try whose handler catches
+    UnicodeDecodeError (or a base class) and ends in sys.exit(<documented code>) - otherwise a binary / Latin-1 file ends the command with a traceback."""
+    m = ctx.repo.module(CLI, "C19.E7")
+    n = 0
+    for q, fn in m.functions():
+        for c in calls_in(fn, include_nested=False):
+            if not (isinstance(c.func, ast.Attribute) and c.func.attr in ("read", "read_text", "readlines") and not c.args):
+                continue
+            recv = src(c.func.value)
+            if recv.startswith("pathlib.Path(") and "islarc" in src(fn):
+                ctx.note("E7-decode-guard", f"{CLI}:{q}", f"{src(c)[:50]}", site(c), "configuration file (.islarc), not an input file of the property")
+                continue
+            n += 1
+            construct = f"{CLI}:{q}"
+            handler = None
+            cur, p_ = c, parent(c)
+            while p_ is not None and cur is not fn:
+                if isinstance(p_, ast.Try) and cur in p_.body:
+                    for h in p_.handlers:
+                        names = {"BaseException"} if h.type is None else {dotted(e) for e in (h.type.elts if isinstance(h.type, ast.Tuple) else [h.type])}
+                        if names & DECODE_CATCHERS:
+                            handler = h
+                            break
+                if handler:
+                    break
+                cur, p_ = p_, parent(p_)
+            if handler is None:
+                ctx.viol("E7-decode-guard", construct, f"{src(c)[:50]} guarded against UnicodeDecodeError", site(c),
+                         "a user-supplied file is read (and decoded as UTF-8) outside any try that catches UnicodeDecodeError: `isla check -g g.bnf input.bin` with a byte 0xff in the file "
+                         "ends with an uncaught UnicodeDecodeError traceback instead of an error message and exit code")
+                continue
+            ends_in_exit = bool(handler.body) and isinstance(handler.body[-1], ast.Expr) and isinstance(handler.body[-1].value, ast.Call) and call_name(handler.body[-1].value) in ("sys.exit", "exit")
+            ctx.check(ends_in_exit, "E7-decode-guard", construct, f"{src(c)[:50]} guarded against UnicodeDecodeError", site(c), "the handler does not end in sys.exit(...)", "handler prints and exits")
+    if n < 3:
+        raise Unrecognised("C19.E7", CLI, f"only {n} file reads found (expected >= 3: read_files, parse_constraint, parse_grammar)")
+    ctx.inventory["file_reads"] = n
+
+
+def rule_e8(ctx):
+    """A grammar that is syntactically fine but uses a nonterminal without rules (or has no <start>) is malformed: parse_grammar must reject it inside its
+    try (-> exit 65); otherwise GrammarGraph.from_grammar fails an assertion later and the command ends in a traceback."""
+    fn = ctx.repo.func(CLI, "parse_grammar", "C19.E8")
+    c = f"{CLI}:parse_grammar"
+    tries = [n for n in fn.body if isinstance(n, ast.Try)]
+    if len(tries) != 1:
+        raise Unrecognised("C19.E8", c, "top-level try not found")
+    t = tries[0]
+    val_calls = [x for st in t.body for x in calls_in(st) if call_name(x) in ("def_used_nonterminals", "is_valid_grammar") and x.args and src(x.args[0]) == "grammar"]
+    top_val = [st for st in t.body if any(call_name(x) in ("def_used_nonterminals", "is_valid_grammar") for x in calls_in(st))]
+    if not val_calls:
+        ctx.viol("E8-grammar-closed", c, "used nonterminals are defined (incl. <start>)", site(t),
+                 "the assembled grammar is returned without checking that every used nonterminal (and <start>) has rules: `isla solve` with the grammar `<start> ::= <b>` ends with an uncaught "
+                 "AssertionError ('Grammar has no rules for <b>') from GrammarGraph.from_grammar instead of exit code 65")
+        return
+    if not top_val:
+        raise Unrecognised("C19.E8", c, "validation call is not a top-level statement of the try body (must apply to both the -g and the file branch)")
+    idx = t.body.index(top_val[0])
+    rejecting = [st for st in t.body[idx:] if isinstance(st, ast.If) and any(isinstance(x, ast.Raise) or (isinstance(x, ast.Call) and call_name(x) in ("sys.exit", "exit")) for x in ast.walk(st))]
+    ctx.check(bool(rejecting), "E8-grammar-closed", c, "used nonterminals are defined (incl. <start>)", site(top_val[0]), "the validation result does not lead to a raise/exit inside the try", "raise inside the try -> exit 65")
+    rets = [r for r in walk_local(fn) if isinstance(r, ast.Return)]
+    ok = len(rets) == 1 and src(rets[0].value) == "grammar" and rets[0] is fn.body[-1]
+    ctx.check(ok, "E8-grammar-closed", c, "the validated grammar is what is returned", site(fn), "parse_grammar must return `grammar` after the try", "returns grammar")
+    # the helper counts the start symbol as used
+    H = "src/isla/helpers.py"
+    du = ctx.repo.func(H, "def_used_nonterminals", "C19.E8")
+    ok = any(isinstance(a, ast.Assign) and src(a.targets[0]) == "used_nonterminals" and src(a.value) == "{_start_symbol}" for a in walk_local(du))
+    ctx.check(ok, "E8-grammar-closed", f"{H}:def_used_nonterminals", "<start> counts as used", site(du), "used_nonterminals must start from {_start_symbol}", "start symbol required")
+
+
+def rule_e9(ctx):
+    """do_check (check / find / parse): whatever constraint evaluation raises is turned into a non-zero result instead of escaping as a traceback."""
+    fn = ctx.repo.func(CLI, "do_check", "C19.E9")
+    c = f"{CLI}:do_check"
+    chk = [x for x in calls_in(fn, include_nested=False) if call_name(x) == "solver.check"]
+    if len(chk) != 1:
+        raise Unrecognised("C19.E9", c, f"expected one solver.check call (found {len(chk)})")
+    h = _try_with_exception_handler(chk[0], fn)
+    if h is None:
+        ctx.viol("E9-check-exceptions", c, "solver.check(tree) inside try/except Exception", site(chk[0]),
+                 "an exception raised while evaluating the constraint (e.g. the assertion in level_check for `level(\"XX\", ...)`, or UnknownResultError) escapes do_check: "
+                 "`isla check` ends with an uncaught traceback")
+        return
+    rets = [r for r in ast.walk(h) if isinstance(r, ast.Return)]
+    ok = bool(rets) and all(isinstance(r.value, ast.Tuple) and isinstance(r.value.elts[0], ast.Constant) and r.value.elts[0].value == 1 and src(r.value.elts[2]) == "Nothing" for r in rets)
+    exits = [x for x in calls_in(h) if call_name(x) in ("sys.exit", "exit")]
+    ok = ok or (bool(exits) and all(x.args and src(x.args[0]) in ("1", "DATA_FORMAT_ERROR") for x in exits))
+    ctx.check(ok, "E9-check-exceptions", c, "handler answers with a non-zero code and no tree", site(h), "the generic handler must return (1, <message>, Nothing)", "(1, message, Nothing)")
+    mk = [x for x in calls_in(fn, include_nested=False) if call_name(x) == "ISLaSolver"]
+    for x in mk:
+        ctx.check(_try_with_exception_handler(x, fn) is not None, "E9-check-exceptions", c, "ISLaSolver(...) construction inside the same guard", site(x), "solver construction can raise for a constraint/grammar mismatch", "guarded")
+
+
 def run(ctx) -> str:
+    ctx.guarded("E9", lambda: rule_e9(ctx))
+    ctx.guarded("E10", lambda: rule_e10(ctx))
+    ctx.guarded("E8", lambda: rule_e8(ctx))
+    ctx.guarded("E7", lambda: rule_e7(ctx))
     ctx.guarded("E1", lambda: rule_e1(ctx))
     ctx.guarded("E2", lambda: rule_e2(ctx))
     ctx.guarded("E3", lambda: rule_e3(ctx))
